@@ -7,6 +7,11 @@
 (* other content of any length.  `hist` records the steps (replayed with   *)
 (* the real binary).                                                       *)
 (*                                                                         *)
+(* The other subcommands (generate, normalize, compile, help), an unknown  *)
+(* command and wrong argument counts are steps of the same histories: they *)
+(* print their own output or fail, and none of them touches the output     *)
+(* path.                                                                   *)
+(*                                                                         *)
 (* Truncate = TRUE is the design (the file ends up holding exactly the     *)
 (* report); FALSE is the pinned tree (existing file opened without         *)
 (* truncation: a longer previous content keeps its tail).                  *)
@@ -61,12 +66,29 @@ MkDir ==
   /\ file = Absent /\ file' = IsDir /\ UNCHANGED <<stdout, exit>>
   /\ hist' = Append(hist, [op |-> "mkdir", pair |-> 0])
 
+\* ---- the other subcommands and argument errors ------------------------------
+\* what each prints: the policy / the normalised input of pair k, a fixed text, or nothing on failure
+Others == {"generate", "normalize", "compile", "help",                       \* succeed
+           "unknownCommand", "validateOneArg", "validateFourArgs", "generateNoArg", "generateTwoArgs",
+           "normalizeTwoArgs", "compileNoArg", "missingProfile", "missingData", "generateBroken", "normalizeBroken",
+           "compileBroken"}                                                 \* fail
+OtherStdout(c, k) == CASE c = "generate"  -> << <<"policy", k>> >>
+                       [] c = "normalize" -> << <<"normalized", k>> >>
+                       [] c = "compile"   -> << <<"compileOk", 0>> >>
+                       [] c = "help"      -> << <<"help", 0>> >>
+                       [] OTHER           -> <<>>
+OtherExit(c) == IF c \in {"generate", "normalize", "compile", "help"} THEN 0 ELSE 1
+RunOther(c, k) ==
+  /\ stdout' = OtherStdout(c, k) /\ exit' = OtherExit(c) /\ UNCHANGED file
+  /\ hist' = Append(hist, [op |-> c, pair |-> k])
+
 Next == /\ Len(hist) < MaxSteps
         /\ \/ \E i \in Pairs : RunToFile(i) \/ RunToStdout(i)
            \/ \E b \in BOOLEAN : RunFails(b)
            \/ Remove
            \/ \E n \in {0, 1, 6} : Overwrite(n)      \* empty, shorter than any report, longer than any report
            \/ Litter \/ MkDir
+           \/ \E c \in Others : \E k \in (IF c \in {"generate", "normalize"} THEN Pairs ELSE {0}) : RunOther(c, k)
 Spec == Init /\ [][Next]_vars
 
 LastOp == IF Len(hist) = 0 THEN "none" ELSE hist[Len(hist)].op
@@ -75,4 +97,12 @@ FileIsExactlyTheReport ==
   LastOp = "validateToFile" => (file = Report(hist[Len(hist)].pair) /\ exit = 0) \/ (file = IsDir /\ exit # 0)
 StdoutIsExactlyTheReport == LastOp = "validateToStdout" => stdout = Report(hist[Len(hist)].pair) /\ exit = 0
 FailuresPrintNoReport == LastOp \in {"failToFile", "failToStdout"} => exit # 0 /\ stdout = <<>>
+\* a report reaches stdout only from `validate` without an output path
+ReportOnlyFromValidate ==
+  LastOp \in Others \cup {"validateToFile", "failToFile", "failToStdout"} => \A j \in 1..Len(stdout) : stdout[j][1] # "rep"
+OtherCommandsExit == LastOp \in Others => exit = OtherExit(LastOp) /\ (exit # 0 => stdout = <<>>)
+\* only `validate PROFILE DATA OUT` (and the environment) ever changes the output path
+OnlyValidateToFileWrites ==
+  [][LET op == hist'[Len(hist')].op IN
+       op \notin {"validateToFile", "remove", "overwrite", "mkdir"} => file' = file]_vars
 =============================================================================
